@@ -1872,3 +1872,269 @@ func ruleCodecNested(e *Engine, r *Report, minInst int, pkgs ...string) {
 	}
 	r.floor(rule, n, minInst)
 }
+
+// ruleReadCountFromRead (C14): in the snapshot reader code, a function that
+// fills a buffer through io.ReadFull / io.ReadAtLeast / an underlying Read
+// and reports a byte count reports the count of that read (possibly minus the
+// framing it strips): the non-constant count it returns on a path that
+// performed the read depends on the read's n. A count taken from a
+// configured size instead hands the caller bytes that were never read
+// whenever the read is short (the last block of a file).
+func ruleReadCountFromRead(e *Engine, r *Report, minInst int, pkgs ...string) {
+	rule := "DEP-read-count"
+	inPkg := map[*types.Package]bool{}
+	for _, p := range pkgs {
+		if pk := e.pkgTypes(p); pk != nil {
+			inPkg[pk] = true
+		}
+	}
+	isRead := func(v ssa.Value) bool {
+		c, ok := v.(*ssa.Call)
+		if !ok {
+			return false
+		}
+		if c.Call.IsInvoke() {
+			return c.Call.Method.Name() == "Read"
+		}
+		sc := c.Call.StaticCallee()
+		if sc == nil {
+			return false
+		}
+		if sc.Pkg != nil && sc.Pkg.Pkg.Path() == "io" && (sc.Name() == "ReadFull" || sc.Name() == "ReadAtLeast") {
+			return true
+		}
+		return false
+	}
+	n := 0
+	for _, fn := range e.ScopeFuncs() {
+		if !inPkg[fnPkg(fn)] || len(fn.Blocks) == 0 || !e.IsLive(outermostFn(fn)) {
+			continue
+		}
+		res := fn.Signature.Results()
+		if res.Len() != 2 || !isErrorType(res.At(1).Type()) {
+			continue
+		}
+		if b, ok := res.At(0).Type().Underlying().(*types.Basic); !ok || b.Info()&types.IsInteger == 0 {
+			continue
+		}
+		var reads []ssa.Instruction
+		forEachInstr(fn, func(in ssa.Instruction) {
+			if v, ok := in.(ssa.Value); ok && isRead(v) {
+				reads = append(reads, in)
+			}
+		})
+		if len(reads) == 0 {
+			continue
+		}
+		// also accept counts produced by a same-package helper that itself satisfies the rule
+		// (readBlock returns the read's n; Read adds up helper results)
+		var fromRead func(x ssa.Value) bool
+		fromRead = func(x ssa.Value) bool {
+			if isRead(x) {
+				return true
+			}
+			// a receiver field re-sliced to the read's n in this function (br.block = br.block[:n])
+			if f, _, ok := loadedField(x); ok {
+				hit := false
+				forEachInstr(fn, func(y ssa.Instruction) {
+					if st, ok := y.(*ssa.Store); ok && !hit {
+						if g, _, ok := fieldOfAddr(st.Addr); ok && g == f {
+							if e.dependsOn(st.Val, isRead, 0) {
+								hit = true
+							}
+						}
+					}
+				})
+				if hit {
+					return true
+				}
+			}
+			if c, ok := x.(*ssa.Call); ok {
+				if sc := c.Call.StaticCallee(); sc != nil && inPkg[fnPkg(sc)] {
+					return e.returnDependsOn(sc, isRead, 1)
+				}
+			}
+			return false
+		}
+		forEachInstr(fn, func(in ssa.Instruction) {
+			ret, ok := in.(*ssa.Return)
+			if !ok || !e.isSuccessReturn(in) {
+				return
+			}
+			v := stripConv(retOperand(ret, 0))
+			if _, isC := v.(*ssa.Const); isC {
+				return
+			}
+			// only returns that follow a read on some path
+			after := false
+			for _, rd := range reads {
+				if e.findPath(fn, rd, func(x ssa.Instruction) bool { return x == in }, nil, nil).Found {
+					after = true
+				}
+			}
+			if !after {
+				return
+			}
+			n++
+			r.check(e.dependsOn(v, fromRead, 1), rule, fname(fn)+" reports the byte count of the read it made", e.ipos(in),
+				"the returned count derives from the n of ReadFull/Read", "the byte count returned after reading ("+e.describeValue(v)+") does not derive from the number of bytes the read delivered: on a short read (the partial last block) the caller is told it got more bytes than were read and consumes checksum bytes / stale buffer contents as payload")
+		})
+	}
+	r.floor(rule, n, minInst)
+}
+
+// ruleShortReadAccounted (C14, C10): io.ReadFull answers a short read with
+// io.ErrUnexpectedEOF and a partial buffer. Code that treats that error as
+// "end of data" must account for the bytes that did arrive: it uses the
+// returned n, or the buffer is a 1-byte probe (for which a short read is
+// impossible). Otherwise up to len(buf)-1 bytes of real data are silently
+// taken for "nothing there".
+func ruleShortReadAccounted(e *Engine, r *Report, minInst int) {
+	rule := "DEP-short-read-accounted"
+	n := 0
+	for _, fn := range e.ScopeFuncs() {
+		p := fnPkg(fn)
+		if p == nil || !inModule(p) || len(fn.Blocks) == 0 || !e.IsLive(outermostFn(fn)) {
+			continue
+		}
+		forEachInstr(fn, func(in ssa.Instruction) {
+			c, ok := in.(*ssa.Call)
+			if !ok {
+				return
+			}
+			sc := c.Call.StaticCallee()
+			if sc == nil || sc.Pkg == nil || sc.Pkg.Pkg.Path() != "io" || sc.Name() != "ReadFull" || len(c.Call.Args) != 2 {
+				return
+			}
+			vals, hasErr, _ := errValueOf(c)
+			if !hasErr {
+				return
+			}
+			soft := false
+			for _, v := range vals {
+				aliases := errAliases(v)
+				for _, b := range fn.Blocks {
+					if len(b.Instrs) == 0 {
+						continue
+					}
+					ifi, ok := b.Instrs[len(b.Instrs)-1].(*ssa.If)
+					if !ok {
+						continue
+					}
+					if t, _ := e.sentinelTest(ifi.Cond, aliases); t && e.sentinelLabel(ifi.Cond, aliases) == "io.ErrUnexpectedEOF" {
+						soft = true
+					}
+				}
+			}
+			if !soft {
+				return
+			}
+			n++
+			usesN := false
+			if refs := c.Referrers(); refs != nil {
+				for _, ref := range *refs {
+					if ex, ok := ref.(*ssa.Extract); ok && ex.Index == 0 {
+						if rr := ex.Referrers(); rr != nil && len(*rr) > 0 {
+							usesN = true
+						}
+					}
+				}
+			}
+			probe := false
+			e.dependsOn(c.Call.Args[1], func(x ssa.Value) bool {
+				if mk, ok := x.(*ssa.MakeSlice); ok {
+					if k, ok := mk.Len.(*ssa.Const); ok {
+						if u, isU := constantUint64(k); isU && u == 1 {
+							probe = true
+						}
+					}
+				}
+				if al, ok := x.(*ssa.Alloc); ok {
+					if at, ok := al.Type().(*types.Pointer); ok {
+						if arr, ok := at.Elem().Underlying().(*types.Array); ok && arr.Len() == 1 {
+							probe = true
+						}
+					}
+				}
+				return false
+			}, 0)
+			r.check(usesN || probe, rule, "short read of io.ReadFull in "+fname(fn)+" is accounted for", e.ipos(in),
+				"the byte count is used, or the buffer is a one-byte probe", "io.ErrUnexpectedEOF of this read is treated as end of data although the buffer is longer than one byte and the byte count is discarded: up to len(buf)-1 bytes that did arrive are taken for nothing")
+		})
+	}
+	r.floor(rule, n, minInst)
+}
+
+// ruleRemoveRecommits (C17, C07): removing a voting member or a witness
+// shrinks the quorum, so entries that were one acknowledgement short may now
+// be committed: the leader re-evaluates the commit index on every path of
+// removeNode, the only exemptions being "not the leader" and "no voting
+// member left". (The removed replica's own late acknowledgement is dropped
+// as coming from an unknown sender, so nothing else would trigger it.)
+func ruleRemoveRecommits(e *Engine, r *Report) {
+	rule := "MPT-remove-recommits"
+	fn := r.need(raftT + "removeNode")
+	tc := r.need(raftT + "tryCommit")
+	isLeader := r.need(raftT + "isLeader")
+	nvm := r.need(raftT + "numVotingMembers")
+	if fn == nil || tc == nil || isLeader == nil || nvm == nil {
+		return
+	}
+	isTC := e.throughHelpers(func(s ssa.CallInstruction) bool { return e.CallsTo(s, tc) })
+	exempt := reqAny("not the leader, or no voting member left",
+		reqBool("", e.callV(isLeader), false),
+		reqCmp("", "<=", e.callV(nvm), intConstV(0)),
+		reqCmp("", "==", e.callV(nvm), intConstV(0)))
+	res := e.pathUnless(fn, nil, isReturn, isTC, exempt)
+	r.check(!res.Found, rule, "removeNode re-evaluates the commit index on the leader", e.pos(fn.Pos()),
+		"tryCommit on every path of a leader that still has voting members", "a leader can finish removeNode without re-evaluating the commit index (e.g. when the removed replica was a witness): an entry already stored on the new, smaller quorum stays uncommitted until some later proposal arrives", res.Trace(e)...)
+}
+
+// ruleImportRecordWriters (C20): in the import tool the snapshot record that
+// is finalized and handed to the log store is built in one place (the function
+// that returns the processed pb.Snapshot); the copy / check steps read the
+// exported record and never write a field of a Snapshot or SnapshotFile - the
+// external-file entries are shared pointers, so a write in the copy step
+// silently rewrites the already processed record (e.g. to paths inside the
+// temporary directory that is renamed away a moment later).
+func ruleImportRecordWriters(e *Engine, r *Report) {
+	rule := "WMW-import-record"
+	tools := e.pkgTypes("tools")
+	ssT := e.Named("raftpb", "Snapshot")
+	if tools == nil || ssT == nil {
+		return
+	}
+	builder := func(fn *ssa.Function) bool {
+		g := outermostFn(fn)
+		res := g.Signature.Results()
+		for i := 0; i < res.Len(); i++ {
+			if types.Identical(res.At(i).Type(), ssT) {
+				return true
+			}
+		}
+		return false
+	}
+	n := 0
+	for _, tname := range []string{"Snapshot", "SnapshotFile"} {
+		nt := e.Named("raftpb", tname)
+		if nt == nil {
+			continue
+		}
+		st, _ := nt.Underlying().(*types.Struct)
+		for i := 0; st != nil && i < st.NumFields(); i++ {
+			for _, w := range e.FieldWrites(st.Field(i)) {
+				if fnPkg(w.Fn) != tools {
+					continue
+				}
+				if w.Kind == "init" {
+					// a fresh literal is not the shared record
+					continue
+				}
+				n++
+				r.check(builder(w.Fn), rule, tname+"."+st.Field(i).Name()+" written in "+fname(w.Fn), e.ipos(w.Instr),
+					"written by the function that builds the processed record", "a field of the snapshot record is written outside the function that builds the processed record: the external-file entries are shared pointers, so the record that is finalized and stored in the log store is changed behind its back")
+			}
+		}
+	}
+	r.floor(rule, n, 1)
+}
